@@ -80,6 +80,8 @@ void run_ps(const char *op)
         case 4: { size_t k = b < dsize + 8 ? (size_t)b : dsize + 8; buf = calloc(k ? k : 1, 1); blen = k;
                 acc = persistent_fetch_part(buf, &st, (size_t)a, (size_t)b); show = true; break; }
         case 5: acc = persistent_reset(&st, (unsigned char)a); break;
+        case 7: buf = malloc(dsize ? dsize : 1); for (size_t j = 0; j < dsize; j++) buf[j] = j < 8 ? (unsigned char)(a >> (8 * j)) : 0;   /* explicit image: the octets of a, least significant first */
+                acc = persistent_store(&st, buf); break;
         default: if (a < g_len) g_img[a] ^= (unsigned char)b;
                  out_s("corrupt"); out_s("-"); out_h(g_img, g_len); out_s("-"); out_s("-"); continue;
         }
